@@ -1,29 +1,34 @@
 import MptModel.Impl.Iter
 import MptModel.Impl.IterString
+import MptModel.Impl.IterArgs
 import MptModel.Impl.Dyadic
 import MptModel.Spec.IterGrammar
 import Driver.Util
 namespace Driver.Iter
 open Mpt Mpt.Iter
 
-/-- one iterator: the implementation model state and the spec cursor (position in the denoted sequence);
-    `tailBad`: the text of a value list continues with something that is not a number -/
+/-- spec view of a buffer iterator: the segments of the byte array (terminated strings, and a last
+    unterminated rest as a byte vector) and the index of the current one -/
+structure SegCur where
+  segs : List (Bool × List Char) := []
+  pos : Nat := 0
+
+/-- one iterator: the implementation model state (`src`) and the spec cursor (position in the denoted
+    sequence); `tailBad`: the text of a value list continues with something that is not a number -/
 structure Slot where
-  g : Gen
+  src : Src
   cur : IterSpec.Cursor
   tailBad : Bool := false
   /-- magnitude of the first value (scale of the tolerant number text) -/
   first : Rat := 0
-  /-- a text argument iterator (then `g` is unused) -/
-  str : Option StrIt := none
   /-- the spec makes a statement about this slot (for text iterators: only for canonical number lists) -/
   judged : Bool := true
   /-- text iterators: the spec cursor is in step with the iterator (no advance without a read so far) -/
   sync : Bool := true
   /-- text iterators: the current element has been converted since the last advance -/
   readSince : Bool := false
-  /-- known-defect region this slot is in (key of a finding), empty if none -/
-  taint : String := ""
+  /-- buffer iterators: spec cursor over the segments -/
+  seg : SegCur := {}
 
 structure St where
   slots : Array Slot := #[]
@@ -48,7 +53,9 @@ def longRuns : List Char → Nat → Bool
 
 /-- same syntactic filter as `unmodelled` in harness/drv_iter.c -/
 def unmodelled (s : List Char) : Bool :=
-  hasCI s "inf" || hasCI s "nan" || hasCI s "0x" || hasCI s "file" || longRuns s 0
+  -- "nan" is modelled (as "not a number": refused) in plain value lists, i.e. texts that do not start with a keyword
+  let keyword := match (Iter.dropSpace s).head? with | some c => Iter.isAlpha c | none => false
+  hasCI s "inf" || (keyword && hasCI s "nan") || hasCI s "0x" || hasCI s "file" || longRuns s 0
 
 /-- number of decimal digits -/
 def ndigits (n : Nat) : Nat := (Nat.toDigits 10 n).length
@@ -145,8 +152,8 @@ def mkSlot (g0 : Gen) (desc : Option (List Char)) : Slot :=
   let first : Rat := match g0.value.2 with | some v => (if tooBig v then 0 else absR v) | none => 0
   let fromText : Option IterSpec.Den := desc.bind fun d => (IterSpec.recognise d).bind (·.den)
   match fromText with
-  | some den => { g := g, cur := { den := den, pos := 0 }, first := first }
-  | none => { g := g, cur := { den := (denOf g).1, pos := 0 }, tailBad := (denOf g).2, first := first }
+  | some den => { src := .gen g, cur := { den := den, pos := 0 }, first := first }
+  | none => { src := .gen g, cur := { den := (denOf g).1, pos := 0 }, tailBad := (denOf g).2, first := first }
 
 def splitP (p : Char → Bool) : List Char → List (List Char)
   | [] => [[]]
@@ -156,14 +163,22 @@ def splitP (p : Char → Bool) : List Char → List (List Char)
       | [] => [[c]]
       | w :: ws => (c :: w) :: ws
 
-/-- what a text argument denotes, when it is a list of numbers separated by single characters of `sep` -/
-def strDen (text sep : List Char) : Option IterSpec.Den :=
-  let toks := splitP (fun c => sep.contains c) text
-  if text.isEmpty then some (IterSpec.explicit [])
-  else (IterSpec.allSome (toks.map IterSpec.strictNumber)).map IterSpec.explicit
+/-- the numbers of a text argument, when it is a list of numbers separated by single characters of `sep` -/
+def strNums (text sep : List Char) : Option (List Rat) :=
+  if text.isEmpty then some []
+  else IterSpec.allSome ((splitP (fun c => sep.contains c) text).map IterSpec.strictNumber)
 
-def errName : AdvRes → String
-  | .more => "100" | .last => "0" | .err e => e.name
+def strDen (text sep : List Char) : Option IterSpec.Den := (strNums text sep).map IterSpec.explicit
+
+/-- spec: segments of a byte array -/
+def segments (fuel : Nat) (d : List Char) : List (Bool × List Char) :=
+  match fuel with
+  | 0 => []
+  | fuel + 1 =>
+    if d.isEmpty then []
+    else match findNul d with
+      | some i => (true, d.take i) :: segments fuel (d.drop (i + 1))
+      | none => [(false, d)]
 
 def withSel (s : St) (f : Nat → Slot → St × String) : St × String :=
   match s.sel with
@@ -189,6 +204,10 @@ def decodeDesc (h : String) : Option (List Char) :=
   match parseHex h with
   | some bs => if bs.any (· == 0) then none else some (bs.map fun b => Char.ofNat b.toNat)
   | none => none
+
+def decodeBytes (h : String) : Option (List Char) := (parseHex h).map fun bs => bs.map fun b => Char.ofNat b.toNat
+
+def hexOf (cs : List Char) : String := toHex (cs.map fun c => UInt8.ofNat c.toNat)
 
 /-- the documented loop on the model, at most `cap` rounds: (values, stop word, final state) -/
 def walkM : Nat → Gen → List Rat → List Rat × String × Gen
@@ -218,8 +237,8 @@ def walkS : Nat → IterSpec.Cursor → List Rat → List Rat × String × IterS
 def walkStr : Nat → StrIt → List Rat → List Rat × String × StrIt
   | 0, it, acc => (acc.reverse, "cap", it)
   | cap + 1, it, acc =>
-    match it.conv with
-    | (it1, .none0) => (acc.reverse, "none", it1)
+    if !it.hasValue then (acc.reverse, "null", it)
+    else match it.conv with
     | (it1, .err _) => (acc.reverse, "noconv", it1)
     | (it1, .ok v) =>
       match it1.advance with
@@ -227,10 +246,57 @@ def walkStr : Nat → StrIt → List Rat → List Rat × String × StrIt
       | (it2, .last) => ((v :: acc).reverse, "end", it2)
       | (it2, .err _) => ((v :: acc).reverse, "err", it2)
 
+def fmtBufVal : BufIt.BufVal → String
+  | .null => "null"
+  | .str t => s!"str {hexOf t}"
+  | .vec t => s!"vec {hexOf t}"
+
+def fmtSeg : Option (Bool × List Char) → String
+  | none => "null"
+  | some (true, t) => s!"str {hexOf t}"
+  | some (false, t) => s!"vec {hexOf t}"
+
+/-- the documented loop on a buffer iterator (elements are strings) -/
+def walkBuf : Nat → BufIt → List String → List String × String × BufIt
+  | 0, b, acc => (acc.reverse, "cap", b)
+  | cap + 1, b, acc =>
+    match b.value with
+    | .null => (acc.reverse, "null", b)
+    | v =>
+      match b.advance with
+      | (b2, .more) => walkBuf cap b2 (fmtBufVal v :: acc)
+      | (b2, .last) => ((fmtBufVal v :: acc).reverse, "end", b2)
+      | (b2, .err _) => ((fmtBufVal v :: acc).reverse, "err", b2)
+
+def walkSeg : Nat → SegCur → List String → List String × String × SegCur
+  | 0, c, acc => (acc.reverse, "cap", c)
+  | cap + 1, c, acc =>
+    match c.segs[c.pos]? with
+    | none => (acc.reverse, "null", c)
+    | some v =>
+      if c.pos + 1 < c.segs.length then walkSeg cap { c with pos := c.pos + 1 } (fmtSeg (some v) :: acc)
+      else ((fmtSeg (some v) :: acc).reverse, "end", { c with pos := c.pos + 1 })
+
 def fmtVals (vs : List Rat) (first : Rat) : String :=
   if vs.isEmpty then "-" else ",".intercalate (vs.map fun v => fmtNum v false first)
 
 def fmtArr (vs : List Rat) (sc : Rat) : String := ",".intercalate (vs.map fun v => fmtNum v false sc)
+
+def errOfCode (r : Int) : String :=
+  (([Err.BadArgument, .BadValue, .BadType, .BadOperation, .BadEncoding, .MissingData, .MissingBuffer].find?
+    (·.code = r)).map (·.name)).getD "ERR?"
+
+/-- spec: what an iterator-argument creator must produce from a fresh text argument of plain numbers -/
+def fromIterDen (kind : String) (vs : List Rat) : Option IterSpec.Den :=
+  let nat? (q : Rat) : Option Nat := if q.den = 1 ∧ 0 ≤ q.num then some q.num.toNat else none
+  match kind, vs with
+  | "lin", [n, a, b] => (nat? n).bind fun k => (IterSpec.Desc.lin k a b).den
+  | "range", [a, b, st] => (IterSpec.Desc.range a b st).den
+  | "fac", [n] => (nat? n).bind fun k => (IterSpec.Desc.fac k 10 10 0).den
+  | "fac", [n, b] => (nat? n).bind fun k => (IterSpec.Desc.fac k b b 0).den
+  | "fac", [n, b, f] => (nat? n).bind fun k => (IterSpec.Desc.fac k b f 0).den
+  | "fac", [n, b, f, i] => (nat? n).bind fun k => (IterSpec.Desc.fac k b f i).den
+  | _, _ => none
 
 def step (s : St) (w : List String) : St × String :=
   match w with
@@ -270,48 +336,157 @@ def step (s : St) (w : List String) : St × String :=
     let dec (h : String) : Option (Option (List Char)) := if h = "null" then some none else (decodeDesc h).map some
     match dec t, dec sp with
     | some txt, some sep =>
-      if (txt.map unmodelled).getD false then (s, "R unmodelled | C - | I -")
+      if (txt.map fun t => unmodelled t || hasCI t "nan").getD false then (s, "R unmodelled | C - | I -")
       else
         let it := StrIt.create txt sep
         let den := strDen it.text it.sep
-        let sl : Slot := { g := defaultRange, cur := { den := den.getD (IterSpec.explicit []), pos := 0 },
-                           str := some it, judged := den.isSome }
+        let sl : Slot := { src := .str it, cur := { den := den.getD (IterSpec.explicit []), pos := 0 },
+                           judged := den.isSome }
         addSlot s (some sl) true s!"ok slot={s.slots.size} ; *"
     | _, _ => (s, "bad-op")
-  | ["it", "use", k] =>
-    match Dyadic.parseNat k with
-    | some i => if i < s.slots.size then ({ s with sel := some i }, "R ok | C - | I -") else (s, "bad-op")
-    | none => (s, "bad-op")
+  | ["it", kind, h] =>
+    if kind = "buffer" ∨ kind = "args" then
+      let dat : Option (Option (List Char)) := if h = "null" then some none else (decodeBytes h).map some
+      match dat with
+      | none => (s, "bad-op")
+      | some d =>
+        let args := kind = "args"
+        let b := BufIt.create d args
+        let segs := segments ((d.getD []).length + 1) (d.getD [])
+        let sl : Slot := { src := .buf b, cur := { den := IterSpec.explicit [], pos := 0 },
+                           seg := { segs := segs, pos := if args then 1 else 0 } }
+        addSlot s (some sl) true s!"ok slot={s.slots.size} ; *"
+    else if kind = "use" then
+      match Dyadic.parseNat h with
+      | some i => if i < s.slots.size then ({ s with sel := some i }, "R ok | C - | I -") else (s, "bad-op")
+      | none => (s, "bad-op")
+    else if kind = "from" then
+      if h ≠ "lin" ∧ h ≠ "range" ∧ h ≠ "fac" then (s, "bad-op") else
+      withSel s fun k sl =>
+        let r := if h = "lin" then linFromIter sl.src else if h = "range" then rangeFromIter sl.src else facFromIter sl.src
+        -- spec: a fresh text argument of plain numbers denotes the generator of these parameters
+        let fresh : Option (List Rat) := match sl.src with
+          | .str it => if sl.judged ∧ it.pos = some 0 ∧ it.restore = none ∧ !it.endNull then strNums it.text it.sep else none
+          | _ => none
+        let den := fresh.bind (fromIterDen h)
+        let s1 := setSlot s k { sl with src := r.1, sync := false }
+        let alts := if den.isSome then s!"ok slot={s.slots.size} ; *" else "* ; *"
+        let newSlot := r.2.map fun g =>
+          let m := mkSlot g none
+          match den with | some d => { m with cur := { den := d, pos := 0 }, tailBad := false } | none => m
+        addSlot s1 newSlot false alts
+    else if kind = "consume" then
+      withSel s fun k sl =>
+        if h = "d" then
+          let (src1, r) := sl.src.consumeD
+          let out := match r with
+            | .ok v => s!"R ok val={fmtNum v true} | C - | I ret=type"
+            | .err e => s!"R err | C - | I ret={e.name}"
+          (setSlot s k { sl with src := src1, sync := false }, out ++ " | S * ; *")
+        else if h = "u" then
+          let (src1, r) := sl.src.consumeU
+          let out := match r with
+            | .ok v => s!"R ok val={v} | C - | I ret=type"
+            | .err e => s!"R err | C - | I ret={e.name}"
+          (setSlot s k { sl with src := src1, sync := false }, out ++ " | S * ; *")
+        else if h = "skip" then
+          let (src1, r) := sl.src.skip
+          let out := match r with
+            | none => "R ok val=- | C - | I ret=type"
+            | some e => s!"R err | C - | I ret={e.name}"
+          -- a buffer element is skipped as a whole
+          let n := sl.seg.segs.length
+          let seg1 := if r.isNone ∧ sl.seg.pos < n then { sl.seg with pos := sl.seg.pos + 1 } else sl.seg
+          (setSlot s k { sl with src := src1, sync := false, seg := seg1 }, out ++ " | S * ; *")
+        else (s, "bad-op")
+    else if kind = "walk" ∨ kind = "swalk" then
+      match Dyadic.parseNat h with
+      | none => (s, "bad-op")
+      | some cap =>
+        if cap > 4096 then (s, "bad-op") else
+        withSel s fun k sl =>
+          if kind = "swalk" then
+            match sl.src with
+            | .buf b =>
+              let (vs, stop, b1) := walkBuf cap b []
+              let (ws, sstop, c1) := walkSeg cap sl.seg []
+              let show_ (l : List String) := if l.isEmpty then "-" else ",".intercalate (l.map fun x => x.replace " " ":")
+              (setSlot s k { sl with src := .buf b1, seg := c1 },
+                s!"R vals={show_ vs} n={vs.length} stop={stop} | C - | I - | S vals={show_ ws} n={ws.length} stop={sstop} ; *")
+            | _ => (s, "bad-op")
+          else
+          match sl.src with
+          | .str it =>
+            let (vs, stop, it1) := walkStr cap it []
+            let (ws, sstop, c1) := walkS cap sl.cur []
+            let r := s!"vals={fmtVals vs sl.first} n={vs.length} stop={stop}"
+            -- past the end the spec accepts NULL or a refusal alike
+            let stops := if sstop = "null" then ["null", "noconv"] else [sstop]
+            let alts := if sl.judged ∧ sl.sync then
+                " || ".intercalate (stops.map fun st => s!"vals={fmtVals ws sl.first} n={ws.length} stop={st} ; *")
+              else "* ; *"
+            (setSlot s k { sl with src := .str it1, cur := c1, readSince := false }, s!"R {r} | C - | I - | S {alts}")
+          | .buf b =>
+            -- buffer elements are strings: no numeric conversion
+            let stop := match b.value with | .null => "null" | _ => "noconv"
+            (s, s!"R vals=- n=0 stop={stop} | C - | I - | S * ; *")
+          | .gen g =>
+            let (vs, stop, g1) := walkM cap g []
+            let (ws, sstop, c1) := walkS cap sl.cur []
+            let r := s!"vals={fmtVals vs sl.first} n={vs.length} stop={stop}"
+            let sr := s!"vals={fmtVals ws sl.first} n={ws.length} stop={sstop}"
+            let alts := if !sl.sync then "* ; *"
+              else if sl.tailBad ∧ sstop = "end" then s!"{sr} ; * || vals={fmtVals ws sl.first} n={ws.length} stop=err ; *"
+              else s!"{sr} ; *"
+            let c2 := if sl.tailBad ∧ sstop = "end" ∧ stop = "err" then { c1 with pos := c1.pos - 1 } else c1
+            (setSlot s k { sl with src := .gen g1, cur := c2 }, s!"R {r} | C - | I - | S {alts}")
+    else (s, "bad-op")
   | ["it", v] =>
     if v = "value" ∨ v = "xvalue" then
       withSel s fun k sl =>
         let exact := v = "xvalue"
-        match sl.str with
-        | some it =>
+        match sl.src with
+        | .str it =>
+          if !it.hasValue then
+            (s, "R null | C - | I - | S " ++ (if sl.judged ∧ sl.sync then (match sl.cur.value with
+              | some q => s!"val {fmtNum q exact sl.first} ; *" | none => "null ; *") else "* ; *"))
+          else
           let (it1, r) := it.conv
-          let rs := match r with | .none0 => "none" | .err _ => "noconv" | .ok q => s!"val {fmtNum q exact sl.first}"
-          -- spec: the current number; past the end anything but a number (NULL or a refusal)
+          let rs := match r with | .err _ => "noconv" | .ok q => s!"val {fmtNum q exact sl.first}"
+          -- spec: the current number; past the end NULL or a refusal
           let ss := match sl.cur.value with
             | some q => s!"val {fmtNum q exact sl.first} ; *"
             | none => "null ; * || noconv ; *"
-          let tag := if sl.taint ≠ "" then s!" | T tag={sl.taint}"
-            else match r, sl.cur.value with | .none0, none => " | T tag=string-past-end" | _, _ => ""
           let isOk := match r with | .ok _ => true | _ => false
-          (setSlot s k { sl with str := some it1, readSince := sl.readSince || isOk },
-            s!"R {rs} | C - | I - | S " ++ (if sl.judged ∧ sl.sync then ss else "* ; *") ++ tag)
-        | none =>
-        let (g1, r) := sl.g.value
+          (setSlot s k { sl with src := .str it1, readSince := sl.readSince || isOk },
+            s!"R {rs} | C - | I - | S " ++ (if sl.judged ∧ sl.sync then ss else "* ; *"))
+        | .buf b =>
+          let rs := match b.value with | .null => "null" | _ => "noconv"
+          (s, s!"R {rs} | C - | I - | S * ; *")
+        | .gen g =>
+        let (g1, r) := g.value
         let rs := match r with | none => "null" | some q => s!"val {fmtNum q exact sl.first}"
         let ss := match sl.cur.value with | none => "null" | some q => s!"val {fmtNum q exact sl.first}"
-        (setSlot s k { sl with g := g1 }, s!"R {rs} | C - | I - | S {ss} ; *")
+        (setSlot s k { sl with src := .gen g1 }, s!"R {rs} | C - | I - | S " ++ (if sl.sync then s!"{ss} ; *" else "* ; *"))
+    else if v = "svalue" then
+      withSel s fun _ sl =>
+        match sl.src with
+        | .buf b => (s, s!"R {fmtBufVal b.value} | C - | I - | S {fmtSeg sl.seg.segs[sl.seg.pos]?} ; *")
+        | _ => (s, "bad-op")
+    else if v = "text" then
+      withSel s fun _ sl =>
+        match sl.src with
+        | .gen (.values text _ _) => (s, s!"R text={hexOf text} | C - | I ret=iter | S text={hexOf text} ; *")
+        | .gen _ => (s, "R refused | C - | I ret=BadType | S * ; *")
+        | .str it => (s, s!"R text={hexOf it.sep} | C - | I ret=iter | S * ; *")   -- the separator set
+        | .buf _ => (s, "R refused | C - | I ret=BadType | S * ; *")
     else if v = "advance" then
       withSel s fun k sl =>
-        match sl.str with
-        | some it =>
+        match sl.src with
+        | .str it =>
           let (it1, r) := it.advance
           let rs := match r with | .more => "more" | .last => "end" | .err _ => "err"
           let i := match r with | .more => "ret=115" | .last => "ret=0" | .err e => s!"ret={e.name}"
-          let tag := if sl.taint ≠ "" then s!" | T tag={sl.taint}" else ""
           -- the elements of a text are delimited by reading them: an advance without a read is outside
           -- the documented loop (no statement, the cursor is out of step from then on)
           let atEnd := sl.cur.value.isNone
@@ -320,74 +495,57 @@ def step (s : St) (w : List String) : St × String :=
             let alts := match a with
               | .more => "more ; *" | .last => "end ; *"
               | .err => "end ; * || err ; *"      -- past the end: "no further element" or an error
-            (setSlot s k { sl with str := some it1, cur := c1, readSince := false },
-              s!"R {rs} | C - | I {i} | S {alts}{tag}")
+            (setSlot s k { sl with src := .str it1, cur := c1, readSince := false },
+              s!"R {rs} | C - | I {i} | S {alts}")
           else
-            (setSlot s k { sl with str := some it1, sync := false, readSince := false },
-              s!"R {rs} | C - | I {i} | S * ; *{tag}")
-        | none =>
-        let (g1, r) := sl.g.advance
+            (setSlot s k { sl with src := .str it1, sync := false, readSince := false },
+              s!"R {rs} | C - | I {i} | S * ; *")
+        | .buf b =>
+          let (b1, r) := b.advance
+          let rs := match r with | .more => "more" | .last => "end" | .err _ => "err"
+          let i := match r with | .more => (if b1.str.isSome then "ret=115" else "ret=67") | .last => "ret=0" | .err e => s!"ret={e.name}"
+          let n := sl.seg.segs.length
+          let ss := if n ≤ sl.seg.pos then "err" else if sl.seg.pos + 1 = n then "end" else "more"
+          let c1 := if n ≤ sl.seg.pos then sl.seg else { sl.seg with pos := sl.seg.pos + 1 }
+          (setSlot s k { sl with src := .buf b1, seg := c1 }, s!"R {rs} | C - | I {i} | S {ss} ; *")
+        | .gen g =>
+        let (g1, r) := g.advance
         let rs := match r with | .more => "more" | .last => "end" | .err _ => "err"
         let (c1, a) := sl.cur.advance
         let ss := match a with | .more => "more" | .last => "end" | .err => "err"
         -- a value list whose text continues with a non-number: the end of the well-formed prefix may be
         -- reported as an error instead of a plain end
-        let alts := if sl.tailBad ∧ (a = .last ∨ a = .err) then "end ; * || err ; *" else s!"{ss} ; *"
+        let alts := if !sl.sync then "* ; *"
+          else if sl.tailBad ∧ (a = .last ∨ a = .err) then "end ; * || err ; *" else s!"{ss} ; *"
         let isErr := match r with | .err _ => true | _ => false
         let c2 := if sl.tailBad ∧ a = .last ∧ isErr = true then sl.cur else c1
         let i := match r with | .more => "ret=100" | .last => "ret=0" | .err e => s!"ret={e.name}"
-        (setSlot s k { sl with g := g1, cur := c2 }, s!"R {rs} | C - | I {i} | S {alts}")
+        (setSlot s k { sl with src := .gen g1, cur := c2 }, s!"R {rs} | C - | I {i} | S {alts}")
     else if v = "reset" then
       withSel s fun k sl =>
-        match sl.str with
-        | some it =>
+        match sl.src with
+        | .str it =>
           let (it1, r) := it.reset
-          (setSlot s k { sl with str := some it1, cur := sl.cur.reset, sync := true, readSince := false },
+          (setSlot s k { sl with src := .str it1, cur := sl.cur.reset, sync := true, readSince := false },
             s!"R ok | C - | I ret={r} | S ok ; *")
-        | none =>
-        let (g1, r) := sl.g.reset
+        | .buf b =>
+          let (b1, r) := b.reset
+          let rs := if r < 0 then "err" else "ok"
+          (setSlot s k { sl with src := .buf b1, seg := { sl.seg with pos := if b.args then 1 else 0 } },
+            s!"R {rs} | C - | I ret={r} | S ok ; *")
+        | .gen g =>
+        let (g1, r) := g.reset
         let rs := if r < 0 then "err" else "ok"
-        let i := if r < 0 then s!"ret={(([Err.BadArgument, .BadValue, .BadType, .BadOperation, .BadEncoding, .MissingData, .MissingBuffer].find? (·.code = r)).map (·.name)).getD "ERR?"}" else s!"ret={r}"
-        (setSlot s k { sl with g := g1, cur := sl.cur.reset }, s!"R {rs} | C - | I {i} | S ok ; *")
+        let i := if r < 0 then s!"ret={errOfCode r}" else s!"ret={r}"
+        (setSlot s k { sl with src := .gen g1, cur := sl.cur.reset, sync := true }, s!"R {rs} | C - | I {i} | S ok ; *")
     else if v = "clone" then
       withSel s fun _ sl =>
         let alts := s!"ok slot={s.slots.size} ; * || refused ; *"
-        match sl.str with
-        | some it =>
-          -- known defect: the clone is a new iterator over the text that is left (nothing, when the current
-          -- element has been read): only a clone taken at the very start is a faithful copy
-          let t := if it.restore.isSome ∨ it.pos ≠ some 0 then "string-clone" else sl.taint
-          addSlot s (some { sl with str := some it.clone, taint := t }) false alts
-        | none =>
-        addSlot s (sl.g.clone.map fun g => { sl with g := g }) false alts
+        match sl.src with
+        | .str it => addSlot s (some { sl with src := .str it.clone }) false alts
+        | .buf b => addSlot s (some { sl with src := .buf b.clone }) false alts
+        | .gen g => addSlot s (g.clone.map fun g' => { sl with src := .gen g' }) false alts
     else (s, "bad-op")
-  | ["it", "walk", c] =>
-    match Dyadic.parseNat c with
-    | none => (s, "bad-op")
-    | some cap =>
-      if cap > 4096 then (s, "bad-op") else
-      withSel s fun k sl =>
-        match sl.str with
-        | some it =>
-          let (vs, stop, it1) := walkStr cap it []
-          let (ws, sstop, c1) := walkS cap sl.cur []
-          let r := s!"vals={fmtVals vs sl.first} n={vs.length} stop={stop}"
-          -- past the end the spec accepts NULL or a refusal alike
-          let stops := if sstop = "null" then ["null", "noconv"] else [sstop]
-          let alts := if sl.judged ∧ sl.sync then
-              " || ".intercalate (stops.map fun st => s!"vals={fmtVals ws sl.first} n={ws.length} stop={st} ; *")
-            else "* ; *"
-          let tag := if sl.taint ≠ "" then s!" | T tag={sl.taint}"
-            else if stop = "none" ∧ sstop = "null" then " | T tag=string-past-end" else ""
-          (setSlot s k { sl with str := some it1, cur := c1, readSince := false }, s!"R {r} | C - | I - | S {alts}{tag}")
-        | none =>
-        let (vs, stop, g1) := walkM cap sl.g []
-        let (ws, sstop, c1) := walkS cap sl.cur []
-        let r := s!"vals={fmtVals vs sl.first} n={vs.length} stop={stop}"
-        let sr := s!"vals={fmtVals ws sl.first} n={ws.length} stop={sstop}"
-        let alts := if sl.tailBad ∧ sstop = "end" then s!"{sr} ; * || vals={fmtVals ws sl.first} n={ws.length} stop=err ; *" else s!"{sr} ; *"
-        let c2 := if sl.tailBad ∧ sstop = "end" ∧ stop = "err" then { c1 with pos := c1.pos - 1 } else c1
-        (setSlot s k { sl with g := g1, cur := c2 }, s!"R {r} | C - | I - | S {alts}")
   | ["it", "vlinear", p, ld, a, b] =>
     match Dyadic.parseNat p, Dyadic.parseNat ld, Dyadic.parse a, Dyadic.parse b with
     | some p, some ld, some a, some b =>
